@@ -10,6 +10,11 @@ CHECKS = {
          "Generated values of every wire/disk format (all enum variants, boundary integers, 0..255 slips, payloads to 72 kB, every Message tag, real signed blocks from generated honest histories) are pushed through encode/decode both ways and through twin nodes; any asymmetric encoder/decoder edit (field order, width, truncation) changes at least one generated value's round trip.",
          "Equality is on serialized (consensus) fields; derived caches are excluded. Service strings exclude the separators '|' and ';' (implicit precondition of the format).",
          "DESIGN.md §3 C09"),
+ "C10": ("exploration",
+         "exhaustive truncation + boundary-value field corruption + random/mutational fuzzing of every peer/disk decoder with an in-process panic and peak-allocation oracle (thorough tier adds libFuzzer campaigns)",
+         "Every decoder fed by peers or disk is run on all truncations of valid encodings, on every 4-byte window of the leading 200 bytes (and embedded transaction headers) overwritten with boundary values, on every value of each leading byte, on random strings and on random mutations; a panic (caught, keyed by decoder and panic site) or an allocation above 64*len+64KiB is a violation. Totality failures are triggered by specific lengths/counts, which is exactly what systematic truncation and count corruption enumerate.",
+         "The golden-ticket payload decoder is exercised as it is reachable: through the transaction decoder for GoldenTicket-typed transactions. ApiMessage is exercised through Message (its only caller). Allocation is measured by a process-wide counting allocator in a single-threaded run.",
+         "DESIGN.md §3 C10"),
 }
 NOT_YET = {}
 
